@@ -73,6 +73,9 @@ class Session:
         self.decryptor: Decryptor
         self.decryptor = None
 
+        # TLS 1.3: bytes of an unfinished handshake message per direction
+        self.handshake_13_buffer = {}
+
         self.handle_packet(packet)
 
         self.application_traffic = []
@@ -344,6 +347,7 @@ class Session:
         self.can_decrypt = False
         self.server_cipher_change = False
         self.client_cipher_change = False
+        self.handshake_13_buffer = {}
         self.client_random = record.binary[6:38]
         logging.info(f"Client Random: {self.client_random.hex()}")
         self.client_hello_seen = True
@@ -403,15 +407,21 @@ class Session:
         self.client_hello_seen = False
 
     def handle_decrypted_tls_13_handshake_record(self, plaintext, isserver):
-        index = 0
-        while index < len(plaintext):
-            handshake_type = plaintext[index]
-            length = int.from_bytes(plaintext[index + 1:index + 4], 'big')
+        # handshake messages may be fragmented over several records (RFC 8446, 5.1): walk the
+        # messages of the direction's handshake stream, not of the single record
+        buffer = self.handshake_13_buffer.get(isserver, b"") + bytes(plaintext)
+        while len(buffer) >= 4:
+            handshake_type = buffer[0]
+            length = int.from_bytes(buffer[1:4], 'big')
+            if len(buffer) < length + 4:
+                break
 
+            buffer = buffer[length + 4:]
+            self.handshake_13_buffer[isserver] = buffer
             if handshake_type == 20:
                 self.decryptor.update_keys(isserver)
 
-            index += length + 4
+        self.handshake_13_buffer[isserver] = buffer
 
     def handle_tls_13_application_record(self, record: TlsRecord, isserver):
         try:
